@@ -1,14 +1,16 @@
 """C15 - string big-number arithmetic equals integer arithmetic."""
 from hypothesis import strategies as st
 
+from pbt import oracles as o
 from pbt.core import Outcome, Raised, SubCheck, bad, import_dsw, lib_call
 
 PROPERTY = "C15"
 RULE = ("Hypothesis draws (operation, canonical decimal string, one-digit operand) from a mixture of shapes "
-        "(uniform digits, 9..9, 10..0, 10..0d, single-digit runs with one perturbation, block mixtures, 0..999); "
+        "(lengths up to 300 / 1,500 digits plus a share of 4,290..6,000-digit numbers beyond CPython's int/str limit; uniform digits, 9..9, 10..0, 10..0d, single-digit runs with one perturbation, block mixtures, 0..999); "
         "oracle = Python int arithmetic and canonical rendering. Non-trivial: (more than 3 digits or operand > 4, "
         "i.e. outside the suite) and at least one carry/borrow/non-zero running remainder; distinct by full case.")
-ASSUMPTIONS = ["operands are single decimal digits; numbers are canonical decimal strings (no leading zeros)",
+ASSUMPTIONS = ["the reference converts decimal text in chunks, so it does not depend on the 4,300-digit limit",
+               "operands are single decimal digits; numbers are canonical decimal strings (no leading zeros)",
                "subtraction only with number >= operand; division only by 1..9 (division by 0 has no exact result)"]
 
 DIGITS = "0123456789"
@@ -19,7 +21,8 @@ def decimals(draw, max_len):
     shape = draw(st.sampled_from(["uniform", "nines", "power", "power_d", "run", "blocks", "small", "uniform"]))
     if shape == "small":
         return str(draw(st.integers(0, 999)))
-    n = draw(st.one_of(st.integers(1, 12), st.integers(1, max_len)))
+    n = draw(st.one_of(st.integers(1, 12), st.integers(1, max_len), st.integers(1, max_len),
+                       st.integers(4290, 6000) if draw(st.integers(0, 9)) == 0 else st.integers(1, 60)))
     if shape == "uniform":
         head = draw(st.sampled_from(DIGITS[1:]))
         return head + draw(st.text(alphabet=DIGITS, min_size=n - 1, max_size=n - 1))
@@ -97,14 +100,16 @@ def schoolbook_states(op, number, base):
 def evaluate(case):
     dsw = import_dsw()
     op, number, base = case["op"], case["number"], case["base"]
-    n, b = int(number), int(base)
+    n, b = o.dec_to_int(number), int(base)
     function = {"add": dsw.calculus_addition, "sub": dsw.calculus_subtraction,
                 "mul": dsw.calculus_multiplication, "div": dsw.calculus_division}[op]
-    expected = {"add": lambda: str(n + b), "sub": lambda: str(n - b), "mul": lambda: str(n * b),
-                "div": lambda: (str(n // b), str(n % b))}[op]()
+    expected = {"add": lambda: o.int_to_dec(n + b), "sub": lambda: o.int_to_dec(n - b),
+                "mul": lambda: o.int_to_dec(n * b), "div": lambda: (o.int_to_dec(n // b), str(n % b))}[op]()
     states, carried = schoolbook_states(op, number, base)
     classes = [op, "len>3" if len(number) > 3 else "len<=3", "operand>4" if b > 4 else "operand<=4",
                "carry" if carried else "no_carry", "len>=1000" if len(number) >= 1000 else "len<1000"]
+    if len(number) > 4300:
+        classes.append("len>4300")
     classes += sorted(states)
     nontrivial = (len(number) > 3 or b > 4) and carried
     got = lib_call(function, number=number, base=base)
@@ -120,7 +125,7 @@ def evaluate(case):
 
 SUBCHECKS = [
     SubCheck("arith", evaluate, strategy=cases, examples=(20000, 400000), shards=(16, 16),
-             floors={"carry": 2000, "len>3": 5000, "operand>4": 4000, "sub": 2000, "div": 2000},
+             floors={"carry": 2000, "len>3": 5000, "operand>4": 4000, "sub": 2000, "div": 2000, "len>4300": 100},
              rule=RULE),
 ]
 
